@@ -230,7 +230,7 @@ def float_job():
     return {"module": "MC_Float", "spec": "Spec",
             "invariants": ["InvParses", "InvHalf", "InvSingle", "InvBack", "InvLossless", "InvFixedPoint", "InvNotLabel", "Emit"],
             "quick": {"constants": {"H1s": "{0, 1, 3, 4, 60, 123, 124, 125, 126, 127, 128, 252}"}, "timeout": 900, "workers": 8},
-            "thorough": {"constants": {"H1s": "0..255"}, "timeout": 1800, "workers": 8}}
+            "thorough": {"constants": {"H1s": "{" + ", ".join(str(i) for i in range(256)) + "}"}, "timeout": 1800, "workers": 8}}      # (a .cfg takes no `0..255`)
 
 
 for _p in ("C07", "C13"):
